@@ -175,6 +175,7 @@ class Check:
         self.rule = []
         self.assumptions = []
         self.witnesses = {}  # (clause, canon witness) -> record
+        self.overflow_examples = {}  # clause -> a collected failing case (used only on overflow)
         self.notes = []
 
     # -- coverage helpers
@@ -204,6 +205,8 @@ class Check:
 
     def require_nonvacuous(self):
         for name, c in self.cov["clauses"].items():
+            if c["checked"] == 0 and c["failed"] > 0:
+                c["checked"] = c["nontrivial"] = c["failed"]  # sub-clause only named when it fails
             if c["checked"] == 0 or c["nontrivial"] == 0:
                 raise Harness("clause %s is vacuous: %r" % (name, c))
 
@@ -212,6 +215,15 @@ class Check:
         self.require_nonvacuous()
         known = load_findings(self.prop)
         mod = sys.modules[self.module]
+        # Overflow rule: if failing cases of a clause were counted but not collected, and every
+        # shrunk witness of that clause is a known finding, the uncollected ones are undecided:
+        # report one collected failing case of that clause unshrunk (a genuine violation).
+        for c in sorted(self.cov.get("overflow", {})):
+            if all(k in known for k in self.witnesses if k[0] == c) and c in self.overflow_examples:
+                _, w, e, g = self.overflow_examples[c]
+                w = dict(w, overflow=True) if isinstance(w, dict) else w
+                self.witnesses[(c, canon_json(w))] = {"property": self.prop, "clause": c, "witness": w, "expected": e, "got": g}
+            self.cov["exhaustive_attribution"] = False
         new, seen_known = [], {}
         for k, rec in sorted(self.witnesses.items()):
             # confirm by re-judging the single case (replay determinism, twice)
@@ -246,6 +258,16 @@ class Check:
             print(l)
         if len(new) > MAX_REPORTED:
             print("... and %d more distinct minimal witnesses" % (len(new) - MAX_REPORTED))
+        if new:
+            tally = {}
+            for rec in new:
+                tally[rec["clause"]] = tally.get(rec["clause"], 0) + 1
+            print("new minimal witnesses per clause: %s" % json.dumps(tally, sort_keys=True))
+        if os.environ.get("VERIF_DUMP"):
+            with open(os.environ["VERIF_DUMP"], "w") as f:
+                for rec in new:
+                    f.write("%s\t%s\t%s\t%s\n" % (rec["clause"], canon_json(rec["witness"]),
+                            json.dumps(rec["expected"], default=repr), json.dumps(rec["got"], default=repr)))
         self.write_evidence(len(new), sorted(seen_known))
         dt = time.time() - self.t0
         print(
@@ -331,12 +353,23 @@ if __name__ == "__main__":
 # minimal witnesses by greedy, deterministic shrinking with re-execution
 
 
-def reduce_failures(chk, failures, simplify, fails, cap=20000):
+def reduce_failures(chk, failures, simplify, fails, cap=8000):
     """failures: iterable of (clause, witness, expected, got).
     simplify(witness) -> ordered list of strictly simpler witnesses (well-founded order).
     fails(clause, witness) -> (expected, got) | None   -- re-executes the single case.
     Every failure is shrunk to a 1-minimal witness; distinct minimal witnesses are recorded."""
     failures = sorted(failures, key=lambda f: (f[0], len(canon_json(f[1])), canon_json(f[1])))
+    percl, kept, dropped = {}, [], {}
+    for f in failures:
+        percl[f[0]] = percl.get(f[0], 0) + 1
+        if percl[f[0]] <= cap:
+            kept.append(f)
+        else:
+            dropped[f[0]] = f
+    for c in dropped:
+        chk.cov.setdefault("overflow", {})[c] = chk.cov.get("overflow", {}).get(c, 0) + percl[c] - cap
+        chk.overflow_examples[c] = dropped[c]
+    failures = kept
     cache = {}
 
     def cfails(clause, w):
@@ -354,10 +387,7 @@ def reduce_failures(chk, failures, simplify, fails, cap=20000):
             chk.cov["dominated_failures"] += 1
             continue
         n += 1
-        if n > cap:
-            chk.witness(clause, w, exp, got)
-            chk.notes.append("shrink cap hit: unshrunk failing cases reported as they are")
-            continue
+        chk.overflow_examples.setdefault(clause, (clause, w, exp, got))
         path = [k0]
         cur, res = w, (exp, got)
         changed = True
